@@ -51,8 +51,9 @@ where
     if v.form() != want {
         return Err(format!("{name}: converting {s:?} to the enum and back gives {:?}", v.form()));
     }
-    if T::from(s.to_owned()).form() != want {
-        return Err(format!("{name}: From<String> disagrees with From<&str> on {s:?}"));
+    let owned = T::from(s.to_owned());
+    if owned.form() != want || format!("{owned:?}") != format!("{v:?}") {
+        return Err(format!("{name}: From<String> gives {owned:?} but From<&str> gives {v:?} for {s:?}"));
     }
     // specified spelling -> its dedicated variant; anything else -> no dedicated variant
     match variant_ok(&v, want) {
@@ -80,8 +81,8 @@ where
         return Err(format!("{name}: JSON of {s:?} is {js}"));
     }
     let de: T = serde_json::from_str(&serde_json::to_string(s).unwrap()).map_err(|e| format!("{name}: deserialising the JSON string {s:?} failed: {e}"))?;
-    if de.form() != want {
-        return Err(format!("{name}: JSON deserialisation of {s:?} gives {:?}", de.form()));
+    if de.form() != want || format!("{de:?}") != format!("{v:?}") {
+        return Err(format!("{name}: JSON deserialisation of {s:?} gives {de:?}, the string conversion gives {v:?}"));
     }
     // the same JSON string written with \\uXXXX escapes for every character (and inside whitespace)
     let esc: String = s.encode_utf16().map(|u| format!("\\u{u:04x}")).collect();
@@ -126,12 +127,16 @@ where
     }
 }
 
-fn eq_law<T: PartialEq + Form + for<'a> From<&'a str>>(spec: &EnumSpec, va: &T, vb: &T, a: &str, b: &str) -> Result<(), String> {
+fn eq_law<T: PartialEq + Form + for<'a> From<&'a str> + From<String>>(spec: &EnumSpec, va: &T, vb: &T, a: &str, b: &str) -> Result<(), String> {
     if (va == vb) != (va.form() == vb.form()) {
         return Err(format!("{}: equality of {a:?} and {b:?} is {} but their string forms are {}", spec.name, va == vb, if va.form() == vb.form() { "equal" } else { "different" }));
     }
     if *va != T::from(va.form().as_str()) {
         return Err(format!("{}: a value is not equal to its own re-conversion ({a:?})", spec.name));
+    }
+    // every conversion entry point yields the same (==) value
+    if *va != T::from(a.to_owned()) {
+        return Err(format!("{}: From<String> and From<&str> give unequal values for {a:?}", spec.name));
     }
     Ok(())
 }
